@@ -33,7 +33,7 @@ ASSUMPTIONS = [
     "while a before-Deferred is unfired, and all of them have run by the time the last Deferred firing returns",
 ]
 MIN = {"quick": {"evaluations": 550000, "nontrivial": 550000, "outcomes": 18},
-       "thorough": {"evaluations": 11800000, "nontrivial": 11800000, "outcomes": 18}}
+       "thorough": {"evaluations": 13600000, "nontrivial": 13600000, "outcomes": 19}}
 
 PHASES = ("before", "during", "after")
 KINDS = {"before": ("none", "raise", "defer", "fired", "failed"), "during": ("none", "raise", "defer"),
